@@ -297,6 +297,10 @@ func runParse(raw json.RawMessage) interface{} {
 	earlier := in.Words[:len(in.Words)-1]
 	// the line as typed so far (is it acceptable at all?)
 	out["typedRun"] = executeLine(in.Tree, earlier)
+	// ... and with the current word taken as complete (a shorthand series in progress: are the letters typed so far acceptable?)
+	if cur := in.Words[len(in.Words)-1]; len(cur) >= 2 && cur[0] == '-' && cur[1] != '-' {
+		out["typedCurRun"] = executeLine(in.Tree, in.Words)
+	}
 	// accept every offered candidate in turn and let the program's own parser place it
 	runs := []map[string]interface{}{}
 	seen := map[string]bool{}
